@@ -19,7 +19,7 @@ Definition K_DLOG_ED : N := 4.      (* 64 bytes: ed25519 dlog proof (two canonic
 Definition K_BLS_PROOF : N := 5.    (* 64 bytes: aggregate_sig::Proof (two BLS12-381 scalars) *)
 Definition K_UTF8 : N := 6.         (* any length: valid UTF-8 *)
 Definition K_CRED_ID : N := 7.      (* 48 bytes: credential registration id (G1 point) *)
-Definition K_ELGAMAL_PK : N := 8.   (* 48 bytes: elgamal public key of an anonymity revoker (G1 point) *)
+Definition K_ELGAMAL_PK : N := 8.   (* 96 bytes: elgamal public key of an anonymity revoker (generator and key, two G1 points) *)
 
 (** constants.rs *)
 Definition MAX_WASM_MODULE_SIZE : N := 8 * 65536.
@@ -227,7 +227,7 @@ Definition s_level1_update :=
     payload (tag 12) it is framed by a u32 byte length that must be consumed exactly. *)
 Definition s_string_u32 := SRefine (POpaque K_UTF8) (SBytes BE 4 4294967295).
 Definition s_description := STuple [s_string_u32; s_string_u32; s_string_u32].
-Definition s_ar_info := STuple [SRefine (PGe 1) SU32; s_description; SOpaque 48 K_ELGAMAL_PK].
+Definition s_ar_info := STuple [SRefine (PGe 1) SU32; s_description; SOpaque 96 K_ELGAMAL_PK].
 Definition s_add_anonymity_revoker := SFramed SU32 [] s_ar_info.
 
 Definition update_payload_alts_all : list (N * schema) :=
